@@ -94,7 +94,10 @@ def has_recursive_alias(value, ancestors=()) -> bool:
 def yaml_load(stream):
     import yaml
 
-    value = yaml.load(stream, Loader=get_yaml_default_loader())
+    try:
+        value = yaml.load(stream, Loader=get_yaml_default_loader())
+    except (ValueError, AttributeError, IndexError) as ex:  # raised by constructors of explicit tags, e.g. "!!int abc"
+        raise yaml.YAMLError(f"Unable to construct the value: {ex}") from ex
     if has_recursive_alias(value):
         raise yaml.YAMLError("Recursive aliases (a node that contains itself) are not supported.")
     if isinstance(value, dict) and value and all(v is None for v in value.values()):
